@@ -11,6 +11,7 @@ package main
 
 import (
 	"bufio"
+	"context"
 	"errors"
 	"flag"
 	"fmt"
@@ -268,7 +269,10 @@ func handlers() []fh {
 
 type lineW struct{ lines []string }
 
-func (w *lineW) Write(p []byte) (int, error) { w.lines = append(w.lines, string(p)); return len(p), nil }
+func (w *lineW) Write(p []byte) (int, error) {
+	w.lines = append(w.lines, string(p))
+	return len(p), nil
+}
 
 type nullRW struct{ h http.Header }
 
@@ -499,13 +503,15 @@ func isolationSeq(r *seq.Run, tier string) {
 // ---------- concurrent isolation (Engine S) ----------
 
 type cinst struct {
-	nreq  int
-	hsel  []string
-	w     *lineW
-	done  []bool
-	hdrs  []http.Header
-	base  zerolog.Logger
-	probe []string
+	baseCtx  bool // the requests' contexts descend from one server-wide context that already carries a logger
+	ctxProbe []string
+	nreq     int
+	hsel     []string
+	w        *lineW
+	done     []bool
+	hdrs     []http.Header
+	base     zerolog.Logger
+	probe    []string
 }
 
 func pick(names []string) []fh {
@@ -530,10 +536,18 @@ func (c *cinst) Body() {
 	}
 	c.done = make([]bool, c.nreq)
 	c.hdrs = make([]http.Header, c.nreq)
+	var srvCtx context.Context
+	if c.baseCtx {
+		// what http.Server.BaseContext / ConnContext give every request: a context carrying the server's logger
+		srvCtx = zerolog.New(c.w).With().Str("app", "srv").Logger().WithContext(context.Background())
+	}
 	for i := 0; i < c.nreq; i++ {
 		i := i
 		mcrt.GoNamed(fmt.Sprintf("req%d", i), false, func() {
 			req := reqFor(i)
+			if srvCtx != nil {
+				req = req.WithContext(srvCtx)
+			}
 			req.Header.Set("X-Tag", fmt.Sprintf("req%d", i))
 			rw := &nullRW{h: http.Header{}}
 			h.ServeHTTP(rw, req)
@@ -551,8 +565,13 @@ func (c *cinst) Body() {
 	})
 	before := len(c.w.lines)
 	c.base.Info().Msg("probe")
-	c.probe = c.w.lines[before:]
+	c.probe = append([]string{}, c.w.lines[before:]...)
 	c.w.lines = c.w.lines[:before]
+	if srvCtx != nil {
+		zerolog.Ctx(srvCtx).Info().Msg("ctxprobe")
+		c.ctxProbe = append([]string{}, c.w.lines[before:]...)
+		c.w.lines = c.w.lines[:before]
+	}
 }
 
 func (c *cinst) Digest() string {
@@ -605,6 +624,9 @@ func (c *cinst) Check(res *mcrt.Result) []explore.Violation {
 	if len(c.probe) != 1 || c.probe[0] != "{\"level\":\"info\",\"app\":\"base\",\"message\":\"probe\"}\n" {
 		vs = append(vs, explore.Violation{Prop: "C18", Msg: fmt.Sprintf("the logger passed to NewHandler changed: probe %q", c.probe)})
 	}
+	if c.baseCtx && (len(c.ctxProbe) != 1 || c.ctxProbe[0] != "{\"level\":\"info\",\"app\":\"srv\",\"message\":\"ctxprobe\"}\n") {
+		vs = append(vs, explore.Violation{Prop: "C18", Msg: fmt.Sprintf("the logger carried by the server-wide base context changed: probe %q", c.ctxProbe)})
+	}
 	return vs
 }
 
@@ -619,7 +641,8 @@ func factory(name string) *explore.Scenario {
 		return nil
 	}
 	sel := strings.Split(parts[1], ",")
-	return &explore.Scenario{Name: name, WriterProgress: true, New: func() explore.Instance { return &cinst{nreq: n, hsel: sel} },
+	baseCtx := strings.HasSuffix(parts[0], "B")
+	return &explore.Scenario{Name: name, WriterProgress: true, New: func() explore.Instance { return &cinst{nreq: n, hsel: sel, baseCtx: baseCtx} },
 		Setup: func() { zerolog.SetGlobalLevel(zerolog.TraceLevel) }}
 }
 
@@ -683,7 +706,7 @@ func main() {
 	r.Count("proxy_histories", r.Evals)
 	isolationSeq(r, tier)
 	var plans []drv.Plan
-	scs := []string{"R2/ACCESS", "R2/URL,Method", "R2/RemoteAddr,UserAgent,RequestID", "R2/CustomHeader", "R3/URL", "R2/Host,Referer,Proto", "R3/Method,RequestID"}
+	scs := []string{"R2/ACCESS", "R2/URL,Method", "R2/RemoteAddr,UserAgent,RequestID", "R2/CustomHeader", "R3/URL", "R2/Host,Referer,Proto", "R3/Method,RequestID", "R2B/URL,Method", "R2B/ACCESS"}
 	if tier == "thorough" {
 		scs = append(scs, "R3/URL,Method,UserAgent", "R3/RemoteIP,HTTPVersion,HostTrim", "R2/Request,URL,Method")
 	}
